@@ -43,6 +43,15 @@ func main() {
 		workers := fs.Int("workers", 0, "override workers")
 		fs.Parse(os.Args[2:])
 		os.Exit(runCheck(*prop, *tier, *h, *v, *workers))
+	case "replay":
+		if len(os.Args) < 3 {
+			usage()
+		}
+		n := 1
+		if len(os.Args) > 3 {
+			fmt.Sscan(os.Args[3], &n)
+		}
+		os.Exit(runReplay(os.Args[2], n))
 	default:
 		usage()
 	}
